@@ -223,24 +223,56 @@ def render_statement(stmt, names, layout, rng):
     return join(ltoks + [eq] + rtoks, layout, rng)
 
 
-def render_program(stmts, names, layout='canon', seed=0, order=None):
+def verbatim_code(j, form):
+    """Python text of the j-th verbatim statement: it reports its own execution if the model offers `vmark`."""
+    call = f"getattr(self, 'vmark', int)({j})"
+    return f'_v = {call}' if form == 'line' else f'if True:\n    {call}'
+
+
+def verbatim_text(j, form):
+    return f'`{verbatim_code(j, form)}`' if form == 'line' else f'```\n{verbatim_code(j, form)}\n```'
+
+
+def program_items(stmts, verbat=()):
+    """Script order: ('eq', index) and ('verb', number) items (a verbatim statement follows `after` equations)."""
+    items = []
+    vs = list(enumerate(verbat or (), start=1))
+    for k in range(len(stmts) + 1):
+        items += [('verb', j) for j, v in vs if v['after'] == k]
+        if k < len(stmts):
+            items.append(('eq', k))
+    return items
+
+
+def render_program(stmts, names, layout='canon', seed=0, order=None, verbat=()):
     rng = random.Random(seed)
     lines = []
-    idxs = list(range(len(stmts))) if order is None else list(order)
-    for n, i in enumerate(idxs):
+    items = program_items(stmts, verbat)
+    if order is not None:
+        items = [('eq', i) for i in order] if not verbat else [items[i] for i in order]
+    first = True
+    for kind, i in items:
+        if kind == 'verb':      # verbatim statements are written as they are under every layout
+            if layout == 'comments':
+                lines += ['# a verbatim statement follows (', '']
+            lines.append(verbatim_text(i, verbat[i - 1]['form']))
+            if layout in ('comments', 'wide'):
+                lines.append('')
+            continue
         text = render_statement(stmts[i], names, layout, rng)
         if layout == 'comments':
-            if n == 0:
+            if first:
                 lines.append('# 1) leading comment = with an equals sign and an unmatched bracket')
                 lines.append('')
-            first, *rest = text.split('\n')
-            text = '\n'.join([first + '  # (trailing comment: ' + names[0] + ' = 1'] + rest)
+            head, *rest = text.split('\n')
+            text = '\n'.join([head + '  # (trailing comment: ' + names[0] + ' = 1'] + rest)
             lines.append(text)
             lines.append('')
             lines.append('   ')
             lines.append('#')
         else:
             lines.append(text)
+        first = False
     if layout == 'crlf':      # Windows line endings
         return '\r\n'.join(lines) + '\r\n'
     return '\n'.join(lines)
